@@ -8,7 +8,9 @@ path numbers fresh; the restart file written at that moment loads through a new 
 """
 from __future__ import annotations
 
+import copy
 import math
+import os
 import random
 import signal
 
@@ -23,6 +25,124 @@ class Stall(Exception):
 
 def _on_vtalrm(signum, frame):
     raise Stall("treat_output/prep did not return within 20 s of CPU time")
+
+
+_OrigSim = T.Sim
+
+
+class C05Sim(_OrigSim):
+    """repex_tie.Sim plus the C05-only instrumentation on the REAL object (never on the model side):
+    * `sort_trajstate` is bounded by a swap counter (n*n + 4 swaps, the model's fuel): a non-terminating
+      loop becomes a `Stall` naming the step, independent of CPU time;
+    * after every completed step (`treat_output`) the restart.toml just written is loaded into a FRESH
+      REPEX_state (while the long-lived one stays alive): load_paths' assertions must hold and the fresh
+      object's rows must equal the long-lived object's rows slot by slot;
+    * `output.screen` can be non-zero (class attribute `screen`)."""
+
+    screen = 0
+    load_every = 1
+
+    def __init__(self, *a, **k):
+        k.setdefault("screen", type(self).screen)
+        super().__init__(*a, **k)
+        self.loadfails = []
+        self.treat_no = 0
+        self._swaps = 0
+        self._in_sort = False
+        st, sim = self.st, self
+        orig_swap, orig_sort = st.swap, st.sort_trajstate
+
+        def counted_swap(a, b):
+            if sim._in_sort:
+                sim._swaps += 1
+                if sim._swaps > sim.n * sim.n + 4:
+                    raise Stall(f"sort_trajstate made more than n*n+4 = {sim.n * sim.n + 4} swaps in completed "
+                                f"step number {sim.treat_no + 1} of this life (cstep={st.cstep})")
+            return orig_swap(a, b)
+
+        def bounded_sort():
+            sim._in_sort, sim._swaps = True, 0
+            try:
+                return orig_sort()
+            finally:
+                sim._in_sort = False
+
+        st.swap = counted_swap
+        st.sort_trajstate = bounded_sort
+
+    def op_treat(self, md, status, new_weights):
+        md = super().op_treat(md, status, new_weights)
+        self.treat_no += 1
+        if self.load_every and self.treat_no % self.load_every == 0:
+            self.check_restart_file()
+        return md
+
+    def check_restart_file(self):
+        """load the restart.toml of this moment into a fresh REPEX_state; judge it; leave no trace"""
+        R, st = self.R, self.st
+        try:
+            image = T.read_image(self.tmp)
+        except Exception as e:  # noqa: BLE001
+            self.loadfails.append((self.treat_no, f"restart.toml unreadable: {type(e).__name__}: {e}"))
+            return
+        log_len = len(T.ScriptedGen.log)
+        try:
+            cfg2 = copy.deepcopy({k: v for k, v in self.cfg.items() if k != "current"})
+            cfg2["current"] = copy.deepcopy(dict(image))
+            cfg2["current"].setdefault("size", self.n_ens)
+            st2 = R.REPEX_state(cfg2, minus=True)
+            st2.pstore = T.FakeStore()
+            st2.traj_data = {}
+            st2.initiate_ensembles()
+            active = [int(a) for a in image["active"]]
+            if len(active) != self.n_ens or len(set(active)) != len(active):
+                self.loadfails.append((self.treat_no, f"restart file lists active paths {active}"))
+                return
+            order = list(range(1, self.n_ens)) + [0]
+            for i in order:
+                pn = active[i]
+                if pn not in st.traj_data:
+                    self.loadfails.append((self.treat_no, f"active path {pn} of the restart file is not a live path"))
+                    return
+                w = st.traj_data[pn]["weights"]
+                st2.add_traj(ens=i - 1, traj=T.FakePath(pn, w), valid=w, count=False)
+            # the fresh object against the long-lived one, slot by slot
+            for i in range(self.n_ens):
+                if [float(x) for x in st2.state[i]] != [float(x) for x in st.state[i]]:
+                    self.loadfails.append((self.treat_no, f"slot {i}: restored row {list(map(float, st2.state[i]))} "
+                                                          f"differs from the running state's row {list(map(float, st.state[i]))}"))
+                    return
+            if int(image["traj_num"]) != int(st.config["current"]["traj_num"]):
+                self.loadfails.append((self.treat_no, f"restart file has traj_num {image['traj_num']}, the running "
+                                                      f"state {st.config['current']['traj_num']}"))
+            if any(int(p) >= int(image["traj_num"]) for p in active):
+                self.loadfails.append((self.treat_no, f"restart file: active {active} not below traj_num {image['traj_num']}"))
+        except Exception as e:  # noqa: BLE001
+            if isinstance(e, Stall):
+                raise
+            self.loadfails.append((self.treat_no, f"load_paths on the restart file raised {type(e).__name__}: {e}"))
+        finally:
+            del T.ScriptedGen.log[log_len:]
+
+
+class _UseSim:
+    """run repex_tie's history runners with C05Sim (restored afterwards: run(ctx) may be called again)"""
+
+    def __init__(self, screen=0, load_every=1):
+        self.screen, self.load_every = screen, load_every
+
+    def __enter__(self):
+        C05Sim.screen, C05Sim.load_every = self.screen, self.load_every
+        T.Sim = C05Sim
+
+    def __exit__(self, *exc):
+        T.Sim = _OrigSim
+        C05Sim.screen, C05Sim.load_every = 0, 1
+        return False
+
+
+def live_of(d):
+    return d["trajs"].split(",")[:-1]
 
 
 def predicates(ctx, chain, label):
@@ -40,9 +160,18 @@ def predicates(ctx, chain, label):
                 if not np.all(np.isfinite(p)) or np.any(p < -1e-12) or abs(float(p.sum()) - 1.0) > 1e-9:
                     ctx.fail("C05:pick-distribution-not-normalisable", f"choice got p with sum {float(p.sum())!r}",
                              dict(rep0, op_index=op_i, p=[float(x) for x in p]))
+        for (k, what) in getattr(sim, "loadfails", []):
+            ctx.fail("C05:restart-file-does-not-load", f"after completed step {k} of life {seg}: {what}",
+                     dict(rep0, step_in_life=k))
         prev_live = None
         for idx, (tag, d, held) in enumerate(sim.snaps):
             rep = dict(rep0, snapshot=idx, after=tag, trajs=d["trajs"], locks=d["locks"], W=d["W"])
+            if d.get("_prob_stale", "0") != "0":
+                # tie-only (the model is functional): the long-lived object's cached P against a fresh computation
+                ctx.fail("C05:cached-prob-differs-from-fresh", f"_last_prob vs inf_retis(state, locks): {d['_prob_stale']}", rep)
+            if tag == "treat" and d.get("_restart_active") not in (None, "") and d["_restart_active"] != ",".join(live_of(d)):
+                ctx.fail("C05:restart-file-active-differs-from-state",
+                         f"restart.toml active={d['_restart_active']} but live paths {live_of(d)}", rep)
             live = d["trajs"].split(",")[:-1]
             if len(set(live)) != len(live) or "-" in live:
                 ctx.fail("C05:live-paths-not-distinct", f"live paths {live}", rep)
@@ -67,15 +196,20 @@ def predicates(ctx, chain, label):
                                  f"restart.toml written after the step records path {pn} in slot {i} where its weight is zero "
                                  f"(active {ract}, live order in memory {live}): load_paths would assert", rep)
                         break
-            tn = int(d["trajnum"])
-            newc = [int(x) for x in live if int(x) not in ever]
+            try:
+                tn = int(d["trajnum"])
+            except (TypeError, ValueError):
+                ctx.fail("C05:path-number-not-below-counter", f"traj_num is {d['trajnum']!r}", rep)
+                tn = 10 ** 18
+            # empty slots ("-") were reported above as live-paths-not-distinct; judge the numbers that are there
+            nums = [int(x) for x in live if x.isdigit()]
+            newc = [x for x in nums if x not in ever]
             for x in newc:
                 if seg == 0 and tag == "loaded":
                     continue
                 if x <= max_seen and x in ever:
                     ctx.fail("C05:path-number-reused", f"path number {x} handed out twice", rep)
-            for x in live:
-                xi = int(x)
+            for xi in nums:
                 if xi >= tn:
                     ctx.fail("C05:path-number-not-below-counter", f"live path {xi} but traj_num {tn}", rep)
                 ever.add(xi)
@@ -102,27 +236,223 @@ def restart_loads(ctx, sim, label, every=3):
 def one(ctx, params, with_model, outs):
     n_ens, workers, steps, seed, wf, restarts, acc = params[:7]
     rich = bool(params[8]) if len(params) > 8 else False
+    screen = int(params[9]) if len(params) > 9 and params[9] is not None else 0
+    first0 = bool(params[10]) if len(params) > 10 else False
     label = (f"n_ens={n_ens} workers={workers} steps={steps} seed={seed} wf={wf} restarts={list(restarts)} "
-             f"acc_p={acc} rich={rich} ctxseed={ctx.seed}")
+             f"acc_p={acc} rich={rich} ctxseed={ctx.seed}" + (f" screen={screen}" if screen else "")
+             + (" first-completes-[0-]" if first0 else ""))
+    rep0 = {"history": label, "params": list(params), "ctxseed": ctx.seed}
+    cwd0 = os.getcwd()
     old = signal.signal(signal.SIGVTALRM, _on_vtalrm)
     signal.setitimer(signal.ITIMER_VIRTUAL, 20.0 + 0.02 * steps * n_ens)
+    sim = None
+    # (c) the first job to complete is the one holding [0-]/path 0 when asked for
+    chooser = None
+    if first0:
+        def chooser(inflight, _r=random.Random(label + "c")):
+            for i, md in enumerate(inflight):
+                if -1 in md["picked"]:
+                    return i
+            return _r.randrange(len(inflight))
     try:
-        sim = T.run_history(ctx, n_ens, workers, steps, seed=seed, wf=wf, restarts=tuple(restarts), acc_p=acc,
-                            rng=random.Random(label), rich_init=rich)
+        with _UseSim(screen=screen, load_every=1 if (ctx.quick and steps <= 60) or not ctx.quick else 3):
+            sim = T.run_history(ctx, n_ens, workers, steps, seed=seed, wf=wf, restarts=tuple(restarts), acc_p=acc,
+                                rng=random.Random(label), rich_init=rich, chooser=chooser)
+    except Stall as e:
+        # the alarm fired outside the history's own try block (set-up / tear-down): still a reported input
+        ctx.fail("C05:stall", f"{e} (outside a step: while building or closing the sampler)", rep0)
+    except Exception as e:  # noqa: BLE001
+        ctx.fail("C05:sampler-raised", f"building the sampler raised {type(e).__name__}: {e}", rep0)
     finally:
         signal.setitimer(signal.ITIMER_VIRTUAL, 0)
         signal.signal(signal.SIGVTALRM, old)
+        T.Sim = _OrigSim
+        try:
+            os.chdir(cwd0)
+        except OSError:
+            pass
+    if sim is None:
+        return []
     sim.params = list(params)
     chain = sim.previous + [sim]
-    predicates(ctx, chain, label)
-    restart_loads(ctx, sim, label)
+    try:
+        predicates(ctx, chain, label)
+        restart_loads(ctx, sim, label)
+    except Exception as e:  # noqa: BLE001  (never on the unchanged tree: a state the predicates cannot even read)
+        ctx.fail("C05:state-not-judgeable", f"the recorded sampler state could not be judged: {type(e).__name__}: {e}", rep0)
     for sm in chain:
-        ctx.count(len(sm.snaps), workers=("1" if workers == 1 else ">1"), restarts=len(restarts))
+        ctx.count(len(sm.snaps), workers=("1" if workers == 1 else ">1"), restarts=len(restarts),
+                  screen=str(screen))
         for (tag, d, held) in sm.snaps:
             ctx.distinct((d["W"], d["trajs"], d["locks"]))
         if with_model:
             outs.append((sm, label))
     return chain
+
+
+# ----------------------------------------------------------------------------- crafted sort states (d)
+def sort_case(ctx, n_ens, rng, idx):
+    """A crafted in-family, matchable state with MANY idle slots whose diagonal weight is zero (histories only
+    ever produce one or two): every plus slot gets a staircase row valid in its own ensemble, some slots are
+    locked (jobs in flight), then the rows of the idle plus slots are permuted at random.  The real
+    `sort_trajstate` must end within n*n+4 swaps with a non-zero diagonal on every slot, must not touch locks,
+    locked slots, or the pairing path <-> row, and must only permute.  (Lean: `sort_terminates_state`,
+    `sorted_diagonal_nonzero`.)"""
+    label = f"sort-case n_ens={n_ens} idx={idx} ctxseed={ctx.seed}"
+    rep0 = {"history": label, "params": ["sort", n_ens, idx], "ctxseed": ctx.seed}
+    cwd0 = os.getcwd()
+    old = signal.signal(signal.SIGVTALRM, _on_vtalrm)
+    signal.setitimer(signal.ITIMER_VIRTUAL, 20.0)
+    sim = None
+    try:
+        with _UseSim(screen=0, load_every=0):
+            sim = T.Sim(ctx, n_ens, max(1, n_ens - 1), 50, seed=0, rng=random.Random(label))
+        st = sim.st
+        sim.load_initial()
+        r = random.Random(label + "s")
+        plus = list(range(1, n_ens))
+        n_lock = r.randint(0, max(0, n_ens - 2))
+        locked = sorted(r.sample(plus + [0], n_lock)) if n_lock else []
+        lasts = {e: r.randint(e - 1, n_ens - 2) for e in plus}
+        rows = {e: T.staircase(n_ens, e - 1, lasts[e], r.choice([1, 2, 3])) for e in plus}
+        idle_plus = [e for e in plus if e not in locked]
+        perm = idle_plus[:]
+        kind = idx % 3
+        if kind == 0:
+            r.shuffle(perm)
+        elif kind == 1:
+            perm = perm[::-1]                      # reversed: as many zero diagonals as the family allows
+        else:
+            perm = perm[1:] + perm[:1]             # cyclic shift
+        paths = {}
+        for e in plus:
+            paths[e] = T.FakePath(100 + e, rows[e])
+        for dst, src in zip(idle_plus, perm):
+            st._trajs[dst] = paths[src]
+            st.state[dst, :] = [0] + list(rows[src])
+        for e in locked:
+            if e != 0:
+                st._trajs[e] = paths[e]
+                st.state[e, :] = [0] + list(rows[e])
+        for e in range(n_ens):
+            st._locks[e] = 1 if e in locked else 0
+        st.locked = [([e - 1], [st._trajs[e].path_number], k) for k, e in enumerate(locked)]
+        st.toinitiate = -1
+        st._last_prob = None
+        before = [(st._trajs[i].path_number, [float(x) for x in st.state[i]]) for i in range(n_ens)]
+        locks_before = [int(x) for x in st._locks]
+        n_bad = sum(1 for i in range(n_ens) if not locks_before[i] and st.state[i][i] == 0)
+        err = None
+        try:
+            st.sort_trajstate()
+        except Exception as e:  # noqa: BLE001
+            err = e
+        after = [(st._trajs[i].path_number, [float(x) for x in st.state[i]]) for i in range(n_ens)]
+        rep = dict(rep0, before=before, after=after, locks=locks_before)
+        if isinstance(err, Stall):
+            ctx.fail("C05:stall", f"crafted state with {n_bad} zero diagonals: {err}", rep)
+        elif err is not None:
+            ctx.fail("C05:sampler-raised", f"sort_trajstate on a matchable in-family state: {type(err).__name__}: {err}", rep)
+        else:
+            if [int(x) for x in st._locks] != locks_before:
+                ctx.fail("C05:sort-changed-locks", "locks differ after sort_trajstate", rep)
+            for i in range(n_ens):
+                if after[i][1][i] == 0:
+                    ctx.fail("C05:idle-path-with-zero-weight-in-its-slot",
+                             f"slot {i} has zero weight of path {after[i][0]} after sort_trajstate", rep)
+                    break
+            for i in range(n_ens):
+                if locks_before[i] and after[i] != before[i]:
+                    ctx.fail("C05:sort-moved-a-locked-slot", f"locked slot {i}: {before[i]} -> {after[i]}", rep)
+                    break
+            if sorted(map(repr, after)) != sorted(map(repr, before)):
+                ctx.fail("C05:sort-not-a-permutation", "the (path, row) pairs after sorting are not those before", rep)
+        ctx.count(1, branch="crafted-sort", bad=str(min(n_bad, 4)) + ("+" if n_bad > 4 else ""))
+        ctx.distinct(("sort", repr(before), tuple(locks_before)))
+    except Stall as e:
+        ctx.fail("C05:stall", f"{e} (crafted sort state)", rep0)
+    except Exception as e:  # noqa: BLE001
+        ctx.fail("C05:sampler-raised", f"crafted sort state: {type(e).__name__}: {e}", rep0)
+    finally:
+        signal.setitimer(signal.ITIMER_VIRTUAL, 0)
+        signal.signal(signal.SIGVTALRM, old)
+        T.Sim = _OrigSim
+        if sim is not None:
+            try:
+                sim.close()
+            except Exception:  # noqa: BLE001
+                pass
+        try:
+            os.chdir(cwd0)
+        except OSError:
+            pass
+
+
+# ----------------------------------------------------------------------------- restart at cstep 0 (c)
+def cstep0_restart(ctx, n_ens, workers, steps, screen, with_model, outs):
+    """a restart file with cstep 0 / restarted_from 0 (falsy but valid), nothing locked, the initial paths 0..n-1"""
+    label = f"cstep0-restart n_ens={n_ens} workers={workers} steps={steps} screen={screen} ctxseed={ctx.seed}"
+    rep0 = {"history": label, "params": ["cstep0", n_ens, workers, steps, screen], "ctxseed": ctx.seed}
+    weights = {0: (1.0,)}
+    for i in range(1, n_ens):
+        weights[i] = tuple(float(x) for x in T.staircase(n_ens, i - 1, i - 1, 1))
+    # the image: what write_toml() stores right after the initial load_paths, before any step
+    cwd00 = os.getcwd()
+    image = None
+    try:
+        s0 = _OrigSim(ctx, n_ens, workers, steps, seed=0, rng=random.Random(label + "0"))
+        try:
+            s0.load_initial()
+            s0.st.write_toml()
+            image = T.read_image(s0.tmp)
+        finally:
+            s0.close()
+    except Exception as e:  # noqa: BLE001
+        ctx.fail("C05:sampler-raised", f"writing the restart file before the first step: {type(e).__name__}: {e}", rep0)
+    finally:
+        try:
+            os.chdir(cwd00)
+        except OSError:
+            pass
+    if image is None:
+        return
+    if int(image.get("cstep", -1)) != 0:
+        ctx.fail("C05:restart-file-wrong-cstep", f"restart file written before the first step has cstep {image.get('cstep')}", rep0)
+        return
+    cwd0 = os.getcwd()
+    old = signal.signal(signal.SIGVTALRM, _on_vtalrm)
+    signal.setitimer(signal.ITIMER_VIRTUAL, 20.0 + 0.02 * steps * n_ens)
+    sim = None
+    try:
+        with _UseSim(screen=screen, load_every=1):
+            sim = T._run_segment(ctx, n_ens, workers, steps, 0, False, 1, 0.9, None, random.Random(label), None,
+                                 image, weights, False)
+    except Stall as e:
+        ctx.fail("C05:stall", f"{e} (restart at cstep 0)", rep0)
+    except Exception as e:  # noqa: BLE001
+        ctx.fail("C05:sampler-raised", f"restart at cstep 0: {type(e).__name__}: {e}", rep0)
+    finally:
+        signal.setitimer(signal.ITIMER_VIRTUAL, 0)
+        signal.signal(signal.SIGVTALRM, old)
+        T.Sim = _OrigSim
+        try:
+            os.chdir(cwd0)
+        except OSError:
+            pass
+    if sim is None:
+        return
+    sim.previous = []
+    sim.params = rep0["params"]
+    predicates(ctx, [sim], label)
+    for line, real, kind in zip(sim.lines, sim.real, sim.kinds):
+        if kind == "load" and real != "ok":
+            ctx.fail("C05:restart-file-does-not-load", f"{line} -> {real}", rep0)
+    if len([1 for (tag, d, h) in sim.snaps if tag == "treat"]) != steps and sim.error is None:
+        ctx.fail("C05:restart-at-cstep-0-wrong-number-of-steps",
+                 f"{len([1 for (tag, d, h) in sim.snaps if tag == 'treat'])} steps completed, {steps} requested", rep0)
+    ctx.count(len(sim.snaps), branch="cstep0-restart", screen=str(screen))
+    if with_model:
+        outs.append((sim, label))
 
 
 def run(ctx):
@@ -150,17 +480,70 @@ def run(ctx):
         rs = tuple(sorted(rng.sample(range(3, steps - 3), rng.randint(0, 2))))
         plans.append((n_ens, rng.randint(1, n_ens - 1), steps, rng.randint(0, 5), rng.random() < 0.5, rs,
                       rng.choice([0.3, 0.7, 0.95]), n_ens <= 5))
+    # (e) chains of restarts where a THIRD life follows a second stop while re-issued jobs are still running:
+    # consecutive stop points (k, k+1[, k+2]) with >= 2 workers, with and without screen output
+    for n_ens in (3, 4, 5):
+        for w in range(2, n_ens):
+            for rep in range(2 if ctx.quick else 5):
+                steps = 12 + 2 * n_ens
+                k = rng.randint(1, 6)
+                rs = (k, k + 1) if rep % 2 == 0 else (k, k + 1, k + 2)
+                plans.append((n_ens, w, steps, rng.randint(0, 3), False, rs, rng.choice([0.5, 0.9]), True, True,
+                              (0, 1, 3)[(rep + w) % 3]))
+    # (e) output.screen != 0 (print_* read `prob` and fill the cache before the next pick / re-issue)
+    for n_ens in (3, 4, 5):
+        for w in range(1, n_ens):
+            for screen in (1, 3):
+                steps = 10 + 2 * n_ens
+                rs = (rng.randint(2, steps - 4),)
+                plans.append((n_ens, w, steps, 0, bool(w % 2), rs, 0.9, True, True, screen))
+    # (d) steps == workers, steps == workers +- 1 at a fresh start; a restart leaving exactly workers, workers-1,
+    # 1 and 0 steps
+    for n_ens in (3, 4, 5):
+        for w in range(2, n_ens):
+            for steps in (w - 1, w, w + 1):
+                plans.append((n_ens, w, steps, 0, False, (), 0.9, True, True, 0))
+            for left in (w, w - 1, 1):
+                steps = 8
+                plans.append((n_ens, w, steps, 0, False, (steps - left,), 0.9, True, True, 0))
+    # (c) path number 0 / ensemble index 0 / seed 0: the first job to complete is the one that holds [0-] and
+    # path 0, accepted: the first new path number replaces path 0
+    for n_ens in (2, 3, 4):
+        for w in range(1, n_ens):
+            plans.append((n_ens, w, 8, 0, False, (), 1.0, True, True, 0, True))
+            plans.append((n_ens, w, 8, 0, False, (2,), 1.0, True, True, 1, True))
     outs = []
     for p in plans:
-        one(ctx, tuple(p[:7]) + (None, p[8] if len(p) > 8 else False), p[7] and ctx._driver_ok, outs)
+        extra = (p[9] if len(p) > 9 else 0, p[10] if len(p) > 10 else False)
+        one(ctx, tuple(p[:7]) + (None, p[8] if len(p) > 8 else False) + extra, p[7] and ctx._driver_ok, outs)
+    # (c) restart files with cstep 0
+    for n_ens in (2, 3, 4):
+        for w in range(1, n_ens):
+            for steps in ((w, 6) if ctx.quick else (1, w - 1, w, 6, 11)):
+                if steps >= 1:
+                    cstep0_restart(ctx, n_ens, w, steps, (0, 1)[(n_ens + w) % 2], ctx._driver_ok, outs)
+    # (d) crafted matchable states with many zero diagonals
+    for n_ens in range(3, 9):
+        for idx in range(6 if ctx.quick else 40):
+            sort_case(ctx, n_ens, rng, idx)
     for sm, label in outs:
-        T.compare(ctx, sm, ctx.driver(sm.lines), label)
+        try:
+            T.compare(ctx, sm, ctx.driver(sm.lines), label)
+        except Exception as e:  # noqa: BLE001
+            ctx.disagree({"history": label}, "real run recorded", f"comparison raised {type(e).__name__}: {e}")
     if outs:
         sm = outs[-1][0]
         ctx.sample({"history": outs[-1][1], "snapshot": {k: sm.snaps[-1][1][k] for k in ("W", "trajs", "locks", "trajnum")}})
     ctx.assumptions += [
         "histories are quantified over outcomes whose weight vectors are in the staircase family (C02's family)",
-        "a hang is detected by a 20 s CPU-time watchdog around a whole history",
+        "a hang is detected (a) by a swap counter inside the real sort_trajstate (more than n*n+4 swaps = the model's fuel) "
+        "and (b) by a 20 s CPU-time watchdog around a whole history; both report the history (and the step) as failing input",
+        "the long-lived REPEX_state is compared after every completed step with a FRESH REPEX_state loaded from the "
+        "restart.toml written at that moment (both alive at once), and its cached P with a fresh inf_retis: tie-only "
+        "checks, the Lean model is functional and has no object state",
+        "weight vectors with holes (possible with wire fencing, see Infretis.C05.wf_weight_vector_can_have_a_hole) are NOT "
+        "fed as outcomes: the unchanged inf_retis rejects most such states with its own row-sum assertion (C02's family) "
+        "and sort_trajstate can loop on them; they are outside the family the property names",
         "restart-file loading is exercised by really rebuilding REPEX_state from the written restart.toml at the restart points",
     ]
 
@@ -171,7 +554,13 @@ def replay(ctx, obj):
         print("no history parameters in this replay file:", r)
         return 1
     ctx.seed = r.get("ctxseed", ctx.seed)
-    one(ctx, tuple(r["params"]), False, [])
+    ps = r["params"]
+    if ps and ps[0] == "sort":
+        sort_case(ctx, int(ps[1]), ctx.rng, int(ps[2]))
+    elif ps and ps[0] == "cstep0":
+        cstep0_restart(ctx, int(ps[1]), int(ps[2]), int(ps[3]), int(ps[4]), False, [])
+    else:
+        one(ctx, tuple(ps), False, [])
     for f in ctx.fails:
         print("still fails:", f["signature"], f["what"])
     return 1 if ctx.fails else 0
